@@ -1,6 +1,7 @@
 package rules
 
 import (
+	"go/token"
 	"fmt"
 	"strings"
 
@@ -243,6 +244,61 @@ func runC13(p *core.Prog, r *core.Report) {
 	// ---------------- R5 who may remove files of the tree
 	r5 := r.Rule("C13.R5", "files of the tree are removed only by the delete operation and by the tabled removers of temporary names; no writer removes anything at a final object path", 4)
 	fileRemoversTabled(p, r, r5)
+	// ---------------- R6 'no space' is said only by a call that met it
+	r6 := r.Rule("C13.R6", "package fstree produces common.ErrNoSpace only on the true edge of an errors.Is(<error of this call>, ENOSPC) test: a write is refused as 'no space' only because one of its own file-system calls got ENOSPC, never because an earlier write did (writes that were not affected still succeed)", 2)
+	nNS := 0
+	for _, fn := range p.FuncsIn("pkg/local_object_storage/blobstor/fstree") {
+		for _, b := range fn.Blocks {
+			for _, in := range b.Instrs {
+				u, ok := in.(*ssa.UnOp)
+				if !ok || u.Op != token.MUL {
+					continue
+				}
+				g, isG := u.X.(*ssa.Global)
+				if !isG || g.Name() != "ErrNoSpace" || !strings.HasSuffix(g.Pkg.Pkg.Path(), "blobstor/common") {
+					continue
+				}
+				// a load used only as the target of errors.Is is a test, not a produced error
+				produced := false
+				if u.Referrers() != nil {
+					for _, ref := range *u.Referrers() {
+						if c, isC := ref.(*ssa.Call); isC && core.CalleeName(c) == "errors.Is" && len(c.Call.Args) == 2 && c.Call.Args[1] == ssa.Value(u) {
+							continue
+						}
+						if mi, isMI := ref.(*ssa.MakeInterface); isMI && mi.Referrers() != nil {
+							onlyTest := true
+							for _, r2 := range *mi.Referrers() {
+								if c, isC := r2.(*ssa.Call); !isC || core.CalleeName(c) != "errors.Is" || c.Call.Args[1] != ssa.Value(mi) {
+									onlyTest = false
+								}
+							}
+							if onlyTest {
+								continue
+							}
+						}
+						produced = true
+					}
+				}
+				if !produced {
+					continue
+				}
+				nNS++
+				met := false
+				for _, cs := range core.CallSites([]*ssa.Function{fn}, func(s core.Site) bool { return s.Name == "errors.Is" }) {
+					c, isC := cs.Call.(*ssa.Call)
+					if isC && isENOSPC(core.ErrTargetName(c.Call.Args[1])) && branchDominates(c, true, b) {
+						met = true
+					}
+				}
+				r6.Check(met, core.FuncName(fn)+"#ErrNoSpace", p.InstrPos(in), "produced where this call's own error was ENOSPC",
+					"common.ErrNoSpace is produced without an ENOSPC test of an error obtained in this call: a write that met no file-system failure is refused (for example because an earlier write ran out of space)")
+			}
+		}
+	}
+	if nNS == 0 {
+		r.Fatalf("C13.R6: package fstree no longer produces common.ErrNoSpace anywhere")
+	}
+	r.Explain += " (R6) every place of the package that produces common.ErrNoSpace is on the true edge of errors.Is(err, ENOSPC) for an error of the same call."
 }
 
 // fileRemoversTabled: shared by C13.R5 and C12.R5.
@@ -514,4 +570,9 @@ func lenFacts(callee string) ([]core.Guard, core.Derived) {
 		return ok && bo.Op.String() == "!=" && (isN(bo.X) || isN(bo.Y))
 	}}
 	return []core.Guard{eq, ne}, core.Derived{Name: "full-length-written", Alts: [][]string{{eq.Name}, {ne.Name}}}
+}
+
+// isENOSPC: the errors.Is target is the errno constant ENOSPC (28 on every supported platform) or a named ENOSPC variable.
+func isENOSPC(target string) bool {
+	return strings.HasSuffix(target, "ENOSPC") || strings.HasPrefix(target, "const:") && strings.HasSuffix(target, "Errno=28")
 }
